@@ -30,8 +30,63 @@ func (c *splitClient) semiFact(e *Engine, st *State, tok ast.Expr) bool {
 	if !k.OK {
 		return false
 	}
-	f := st.Get(k.Key + ".Kind")
-	return f != nil && f.HasEq && f.Eq == c.semi
+	if f := st.Get(k.Key + ".Kind"); f != nil && f.HasEq && f.Eq == c.semi {
+		return true
+	}
+	// T[i] with i := slices.IndexFunc(T, isSemi) known not to be negative, T unchanged since, and isSemi a function
+	// whose body is `return tok.Kind == TokenSemi`
+	ix, ok := ast.Unparen(tok).(*ast.IndexExpr)
+	if !ok {
+		return false
+	}
+	call, ok := ast.Unparen(c.p.DefExpr(ix.Index)).(*ast.CallExpr)
+	if !ok || len(call.Args) != 2 {
+		return false
+	}
+	f := Callee(e.Info, call)
+	if f == nil || f.Pkg() == nil || f.Pkg().Path() != "slices" || f.Name() != "IndexFunc" {
+		return false
+	}
+	to := objOf(e.Info, ix.X)
+	if to == nil || objOf(e.Info, call.Args[0]) != to || !c.p.unassignedBetween(call, ix, to) {
+		return false
+	}
+	if fi := e.FactOf(st, ix.Index); fi == nil || fi.Lo == nil || *fi.Lo < 0 {
+		return false
+	}
+	var body *ast.BlockStmt
+	var param types.Object
+	switch v := ast.Unparen(c.p.DefExpr(call.Args[1])).(type) {
+	case *ast.FuncLit:
+		body = v.Body
+		if len(v.Type.Params.List) == 1 && len(v.Type.Params.List[0].Names) == 1 {
+			param = e.Info.Defs[v.Type.Params.List[0].Names[0]]
+		}
+	case *ast.Ident:
+		if fn, isFn := e.Info.Uses[v].(*types.Func); isFn {
+			if d, _ := c.p.DeclOf(fn); d != nil && len(d.Type.Params.List) == 1 && len(d.Type.Params.List[0].Names) == 1 {
+				body = d.Body
+				param = e.Info.Defs[d.Type.Params.List[0].Names[0]]
+			}
+		}
+	}
+	if body == nil || param == nil || len(body.List) != 1 {
+		return false
+	}
+	ret, ok := body.List[0].(*ast.ReturnStmt)
+	if !ok || len(ret.Results) != 1 {
+		return false
+	}
+	cmp, ok := ast.Unparen(ret.Results[0]).(*ast.BinaryExpr)
+	if !ok || cmp.Op != token.EQL {
+		return false
+	}
+	sel, ok := ast.Unparen(cmp.X).(*ast.SelectorExpr)
+	if !ok || sel.Sel.Name != "Kind" || objOf(e.Info, sel.X) != param {
+		return false
+	}
+	v := constOf(e.Info, cmp.Y)
+	return v != nil && constKey(v) == c.semi
 }
 
 // spanField matches X.Span.<field> and returns X.
@@ -84,6 +139,22 @@ func (c *splitClient) PreAssign(e *Engine, st *State, lhs, rhs []ast.Expr, stmt 
 
 // fromTokens: tok is the value variable of a range over the Scan(source) result (or an element of it).
 func (c *splitClient) fromTokens(e *Engine, tok ast.Expr) bool {
+	// T[i] where T only ever holds Scan(source) or a part of its own earlier value
+	if ix, ok := ast.Unparen(tok).(*ast.IndexExpr); ok {
+		to := objOf(e.Info, ix.X)
+		if to == nil {
+			return false
+		}
+		return c.p.allDefsAre(ix.X, func(d ast.Expr) bool {
+			if call, ok := d.(*ast.CallExpr); ok && Callee(e.Info, call) == c.scan && len(call.Args) == 1 && objOf(e.Info, call.Args[0]) == c.source {
+				return true
+			}
+			if sl, ok := d.(*ast.SliceExpr); ok && objOf(e.Info, sl.X) == to {
+				return true
+			}
+			return false
+		})
+	}
 	o := objOf(e.Info, tok)
 	if o == nil {
 		return false
